@@ -123,7 +123,8 @@ def canon(v, ty, cards):
         if D != INF and D <= 64:
             return ("arrfull",) + tuple(canon(v.get(k), et, cards) for k in domain_iter(it, cards))
         d = canon(v.default, et, cards)
-        items = sorted(((canon(k, it, cards), canon(x, et, cards)) for k, x in v.items.items()),
+        # (the keys of the stored items are canonical already: see Evaluator._arr_store)
+        items = sorted(((k if isinstance(k, tuple) else canon(k, it, cards), canon(x, et, cards)) for k, x in v.items.items()),
                        key=repr)
         items = tuple((k, x) for k, x in items if x != d)
         assert len(items) < D
